@@ -40,9 +40,9 @@ BENCH_THOROUGH = ["ft06", "ft10", "ft20", "la01", "la02", "la06", "la16", "la21"
 def gen_cases(ctx):
     yield from W.gen_cases(
         ctx,
-        n_hist=ctx.scale(6000, 150000),
-        n_tree=ctx.scale(100, 3000),
-        n_consumer=ctx.scale(300, 6000),
+        n_hist=ctx.scale(6000, 900000),
+        n_tree=ctx.scale(100, 18000),
+        n_consumer=ctx.scale(300, 36000),
         tree_ops=(5, 7) if ctx.tier == "quick" else (6, 9),
         big=True,
     )
